@@ -22,6 +22,8 @@ extern template bool run_extremes<double> (bool); extern template bool run_extre
 
 using namespace vf;
 
+bool c13_dirty_stage (); // c13_dirty.cpp
+
 template <class F> static void run_stage (const char* name, const char* bound, F f)
 {
     if (!R ().stage (name)) return;
@@ -94,6 +96,9 @@ int main (int argc, char** argv)
         ? "transform(box,m), transform(box,m,result) (3 pre-fills, result aliasing box) with perspective entries 2^-K * {-1,0,1,2}^3 \\ 0 and box coordinates 2^K * lattice: float x float K in {74,75,100,120}, double x float {74,75,100,126,149}, double x double {537,538,600,1000}; uniform scale: 8 blocks x 3 translations x m33 in {1,2} x 2000 boxes over {0..3} and {-2,-1,1,2}; mixed scale (only the axes of a mask 1..6 large): 3 monomial blocks x 2000 boxes; every case with w != 0 on all corners"
         : "transform(box,m), transform(box,m,result) (3 pre-fills, result aliasing box) with perspective entries 2^-K * {-1,0,1,2}^3 \\ 0 and box coordinates 2^K * lattice: float x float K in {74,75,100,120}, double x float {74,75,100,126,149}, double x double {537,538,600,1000}; uniform scale: 8 blocks x 2 translations x m33 = 1 (m33 = 2: generic full block) x 432 boxes over {0,1,3} and {-2,-1,1}; mixed scale (only the axes of a mask 1..6 large): 3 monomial blocks x 432 boxes; every case with w != 0 on all corners",
         [&] { return c13::run_transforms_tiny (th); });
+
+    run_stage ("dirty-box-objects", "makeEmpty / makeInfinite / b = Box(point) / b = Box(min,max) / makeEmpty+extendBy(point[,point]) / makeEmpty+extendBy(box) over all points and ordered point pairs of {-1,0,2}^D for Box2<short,int,float,double>, Box3<short,int,int64,float,double>, Box4<int,float>, Interval<int,short,float,double>; transform(box,m,result) / affineTransform(box,m,result) for 731 boxes (empty, infinite, all ordered corner pairs of {-1,0,2}^3) x 6 matrices (identity, integer affine, singular affine, fractional affine, 2 projective with w>0; integer boxes: the 3 integer affine ones) x (S,T) in {float,double}^2, (int,float), (short,double): each on a default-constructed box and on boxes previously holding a regular prime box / an inverted box / the infinite box / NaN (integers: top of range) in every slot - equal in every slot",
+               [&] { return c13_dirty_stage (); });
 
     R ().sample ("Box3i{min=(0,0,0) max=(3,3,3)}.intersects(Box3i{min=(2,0,0) max=(1,3,3)}) : argument is inverted => empty => expected false");
     R ().sample ("Box2f default-constructed .extendBy((1,2)) .extendBy(Box2f{(0,3),(0,3)}) == {(0,2),(1,3)}");
